@@ -6,4 +6,5 @@ CONSTANTS
   GuardTypedNil = TRUE
   CloseOnNilPayload = TRUE
   PooledBuffer = FALSE
+  UEOFIsEnd = FALSE
 CHECK_DEADLOCK FALSE
